@@ -5,7 +5,7 @@
 //! One input line = one history, executed on ONE fresh `SessionContext`:
 //!   {"id":..,
 //!    "config":{"information_schema":bool,"target_partitions":n,"set":[["key","value"],..]},
-//!    "tables":[{"name":..,"cols":[{"name":..,"kind":"i|s|b"}],"parts":[[row,..],..],"batch_rows":n,"utf8view":bool}],
+//!    "tables":[{"name":..,"cols":[{"name":..,"kind":"i|s|b"}],"parts":[[row,..],..],"batch_rows":n,"utf8view":bool,"empty_batch":bool,"defaults":{col:value},"sort":[col..]}],
 //!    "steps":[{"sql":"...","obs":["SELECT ...",..]}]}
 //! A table is registered as a `MemTable` with exactly the given partitions (each split into batches of
 //! `batch_rows` rows, 0 = one batch per partition).  Every step's statement is executed through
@@ -14,6 +14,7 @@
 //! Rows are value grids (see vcommon::sqlexec::value_at; strings outside the pool come back as
 //! {"k":"s","v":-1,"raw":text}).  The driver has no oracle: lib/c39.py / lib/c49.py compare every step with
 //! the TLA+ specification's expectation.
+use arrow::record_batch::RecordBatch;
 use datafusion::datasource::MemTable;
 use datafusion::prelude::*;
 use futures::FutureExt;
@@ -48,6 +49,10 @@ fn make_ctx(h: &Value) -> Result<SessionContext, String> {
             for p in t["parts"].as_array().unwrap() {
                 let rows: Vec<&Value> = p.as_array().unwrap().iter().collect();
                 let mut batches = vec![];
+                if t["empty_batch"].as_bool().unwrap_or(false) {
+                    // a zero-row batch in front of every partition (the DML loops skip such batches)
+                    batches.push(RecordBatch::new_empty(Arc::clone(&schema)));
+                }
                 if rows.is_empty() {
                     // an empty partition has no batches
                 } else if br == 0 {
@@ -59,7 +64,26 @@ fn make_ctx(h: &Value) -> Result<SessionContext, String> {
                 }
                 parts.push(batches);
             }
-            let mt = MemTable::try_new(schema, parts).map_err(|e| e.to_string())?;
+            let mut mt = MemTable::try_new(schema, parts).map_err(|e| e.to_string())?;
+            if let Some(d) = t["defaults"].as_object() {
+                // column defaults: {"c2": {"k":"i","v":5}, ...}
+                let mut m = std::collections::HashMap::new();
+                for (k, v) in d {
+                    let e = match v["k"].as_str().unwrap() {
+                        "i" => lit(v["v"].as_i64().unwrap()),
+                        "s" => lit(vcommon::sqlexec::STR_POOL[v["v"].as_i64().unwrap() as usize]),
+                        "b" => lit(v["v"].as_i64().unwrap() == 1),
+                        _ => lit(datafusion::scalar::ScalarValue::Null),
+                    };
+                    m.insert(k.clone(), e);
+                }
+                mt = mt.with_column_defaults(m);
+            }
+            if let Some(cols) = t["sort"].as_array() {
+                // declared sort order: the listed columns ASC NULLS LAST (the caller sorts every partition)
+                let order: Vec<datafusion::logical_expr::SortExpr> = cols.iter().map(|c| col(c.as_str().unwrap()).sort(true, false)).collect();
+                mt = mt.with_sort_order(vec![order]);
+            }
             ctx.register_table(t["name"].as_str().unwrap(), Arc::new(mt)).map_err(|e| e.to_string())?;
         }
     }
@@ -81,6 +105,46 @@ async fn exec(ctx: &SessionContext, sql: &str) -> Value {
             let msg = p.downcast_ref::<String>().cloned().or_else(|| p.downcast_ref::<&str>().map(|s| s.to_string())).unwrap_or_default();
             json!({"ok":false,"err":format!("panic: {msg}"),"panic":true,"rows":[]})
         }
+    }
+}
+
+/// A step that goes through the Rust API of `SessionContext` instead of SQL:
+///   {"op":"register_table","ref":"s1.\"Ab\"","table":{cols,rows}}   rows = [] on success
+///   {"op":"register_view","ref":..,"query":"SELECT .."}            (DataFrame::into_view, no definition text)
+///   {"op":"deregister_table","ref":..}                             rows = [[existed]]
+///   {"op":"table_exist","ref":..}                                  rows = [[exists]]
+/// The reference string is parsed by `TableReference::from(&str)` (same identifier rules as SQL).
+async fn exec_api(ctx: &SessionContext, a: &Value) -> Value {
+    let fut = async {
+        let r = a["ref"].as_str().unwrap().to_string();
+        let b = |x: bool| vec![json!([{"k":"b","v": x as i64}])];
+        match a["op"].as_str().unwrap() {
+            "register_table" => {
+                let t = &a["table"];
+                let schema = table_schema(t, false);
+                let rows: Vec<&Value> = t["rows"].as_array().unwrap().iter().collect();
+                let batches = if rows.is_empty() { vec![] } else { vec![rows_to_batch(t, &schema, &rows, false)] };
+                let mt = MemTable::try_new(schema, vec![batches]).map_err(|e| e.to_string())?;
+                ctx.register_table(r.as_str(), Arc::new(mt)).map_err(|e| e.to_string())?;
+                Ok::<_, String>(vec![])
+            }
+            "register_view" => {
+                let df = ctx.sql(a["query"].as_str().unwrap()).await.map_err(|e| format!("plan: {e}"))?;
+                ctx.register_table(r.as_str(), df.into_view()).map_err(|e| e.to_string())?;
+                Ok(vec![])
+            }
+            "deregister_table" => {
+                let old = ctx.deregister_table(r.as_str()).map_err(|e| e.to_string())?;
+                Ok(b(old.is_some()))
+            }
+            "table_exist" => Ok(b(ctx.table_exist(r.as_str()).map_err(|e| e.to_string())?)),
+            other => Err(format!("unknown api op {other}")),
+        }
+    };
+    match AssertUnwindSafe(fut).catch_unwind().await {
+        Ok(Ok(rows)) => json!({"ok":true,"err":null,"panic":false,"rows":rows,"cols":[],"types":[]}),
+        Ok(Err(e)) => json!({"ok":false,"err":e,"panic":false,"rows":[]}),
+        Err(_) => json!({"ok":false,"err":"panic","panic":true,"rows":[]}),
     }
 }
 
@@ -106,8 +170,19 @@ async fn run_history(h: &Value) -> Value {
     let mut out = vec![];
     for st in h["steps"].as_array().unwrap() {
         // optional: the optimized logical plan of the statement (no physical planning, hence no side effect)
-        let lplan = if st["plan"].as_bool().unwrap_or(false) { Some(logical_plan_text(&ctx, st["sql"].as_str().unwrap()).await) } else { None };
-        let mut r = exec(&ctx, st["sql"].as_str().unwrap()).await;
+        let lplan = if st["plan"].as_bool().unwrap_or(false) && !st["api"].is_object() { Some(logical_plan_text(&ctx, st["sql"].as_str().unwrap()).await) } else { None };
+        // statements to run before the step's statement (PREPARE ...); a failure there is the step's failure
+        let mut pre_fail = None;
+        if let Some(pre) = st["pre"].as_array() {
+            for q in pre {
+                let x = exec(&ctx, q.as_str().unwrap()).await;
+                if x["ok"] == false {
+                    pre_fail = Some(x);
+                    break;
+                }
+            }
+        }
+        let mut r = if let Some(x) = pre_fail { x } else if st["api"].is_object() { exec_api(&ctx, &st["api"]).await } else { exec(&ctx, st["sql"].as_str().unwrap()).await };
         if let Some(lp) = lplan {
             r["lplan"] = Value::String(lp);
         }
